@@ -1,7 +1,7 @@
 #!/usr/bin/env python3
 """Confirm sub-agent changes in a scratch worktree of /repo and file them under /verif/seeded/.
 
-For every /tmp/seed/<ID>-out/{A,B}.patch.diff:
+For every /tmp/seed/<ID>-out/{A,B}.patch.diff, <ID>-out2/{C,D}, <ID>-out3/{E,F}:
   1. the change applies to /repo's HEAD and compiles,
   2. the repository's own suite still passes with it (127 tests),
   3. the demonstration fails with the change and passes without it.
@@ -61,11 +61,11 @@ def main():
     props = {json.loads(l)["id"]: json.loads(l) for l in open("/verif/properties.jsonl")}
     summary = []
     for pid in sorted(props):
-        for ab in ("A", "B", "C", "D"):
+        for ab in ("A", "B", "C", "D", "E", "F"):
             name = f"{pid}-{ab}"
             if only and name not in only and pid not in only:
                 continue
-            outdir = f"{SEED}/{pid}-out" if ab in "AB" else f"{SEED}/{pid}-out2"
+            outdir = f"{SEED}/{pid}-out" if ab in "AB" else (f"{SEED}/{pid}-out2" if ab in "CD" else f"{SEED}/{pid}-out3")
             if os.path.isdir(os.path.join(OUT, name)) and name not in only:
                 continue
             patch = f"{outdir}/{ab}.patch.diff"
